@@ -162,6 +162,30 @@ func VH16d_receivers() {
 			default:
 				verif.Assert(n-k == off, lab+"/payload-offset")
 			}
+			// raw sockets hand the pattern's header to the application (a device forwards it): its content is fixed by
+			// what arrived
+			h := m.Header
+			switch proto {
+			case "xreq", "xsurveyor":
+				verif.Assert(len(h) == 4 && verif.BytesEq(h, junk[:4]), lab+"/raw-header-is-not-the-id-word-that-arrived")
+			case "xpair1", "xstar":
+				if len(h) == 4 && n >= 4 {
+					verif.Assert(h[0] == 0 && h[1] == 0 && h[2] == 0 && h[3] == junk[3]+1, lab+"/raw-header-is-not-the-hop-count-plus-one")
+				} else {
+					verif.Fail(lab + "/raw-header-length")
+				}
+			case "xrep", "xrespondent":
+				if len(h) == (n-k)+4 {
+					verif.Assert(verif.BytesEq(h[4:], junk[:n-k]), lab+"/raw-header-routing-words-changed")
+					verif.Assert(h[0]|h[1]|h[2]|h[3] != 0 && h[0]&0x80 == 0, lab+"/raw-header-does-not-start-with-a-pipe-id")
+				} else {
+					verif.Fail(lab + "/raw-header-length")
+				}
+			case "xbus":
+				verif.Assert(len(h) == 4 && h[0]|h[1]|h[2]|h[3] != 0 && h[0]&0x80 == 0, lab+"/raw-header-is-not-a-pipe-id")
+			case "xpair", "xpull", "xsub", "pair", "bus", "sub", "pull", "pair1", "star", "rep", "respondent":
+				verif.Assert(len(h) == 0, lab+"/header-handed-to-the-application-although-the-pattern-has-none-in-this-mode")
+			}
 		}
 	}
 	if deliveredJunk {
